@@ -268,6 +268,25 @@ pub fn menu(seed: &Seed, with_unsealed: bool) -> Vec<Mutation> {
             m.push(Mutation::Logical { off, bytes: le(v, n), what: format!("file header {name} <- {v}") });
         }
     }
+    // A2. two header fields at once (fields that are checked against each other: a limit on one
+    // field that is lifted by another one needs both to lie)
+    {
+        let f: [(&str, u64); 4] = [("file length", rep.header.phys_length), ("xml offset", rep.header.xml_phys_offset), ("xml length", rep.header.xml_length), ("page size", rep.header.page_size)];
+        let vals = |cur: u64| -> Vec<u64> { vec![0, cur.wrapping_sub(1), cur + 1, size, 11 << 20, 1 << 30, (1 << 30) + 1024, u64::MAX / 2, u64::MAX] };
+        for a in 0..4 {
+            for b in a + 1..4 {
+                for va in vals(f[a].1) {
+                    for vb in vals(f[b].1) {
+                        let mut cur = [f[0].1, f[1].1, f[2].1, f[3].1];
+                        cur[a] = va;
+                        cur[b] = vb;
+                        let bytes: Vec<u8> = cur.iter().flat_map(|v| v.to_le_bytes()).collect();
+                        m.push(Mutation::Logical { off: 16, bytes, what: format!("file header {} <- {va} and {} <- {vb}", f[a].0, f[b].0) });
+                    }
+                }
+            }
+        }
+    }
     // D/E/F. binary sections
     for (si, s) in rep.sections.iter().enumerate() {
         let base = s.log_start;
